@@ -129,10 +129,16 @@ def printed(outpath, tag):
 
 
 _built = {}
+_build_lock = __import__("threading").Lock()
 
 
 def build_harness(race=False):
     """Build the harness against the *current* /repo working tree with the verif tag."""
+    with _build_lock:
+        return _build_harness(race)
+
+
+def _build_harness(race=False):
     key = "race" if race else "plain"
     if key in _built:
         return _built[key]
